@@ -156,10 +156,11 @@ type c18Case struct {
 	Vector   int
 	Escaping bool
 	Outside  string // name of the directory next to the root that holds the decoy
+	SkipP    bool   // -P as well: inheritance off must not switch the confinement off
 }
 
 func (cs c18Case) String() string {
-	return fmt.Sprintf("root=%s entry=%s vector=%s escaping=%v outside-dir=%s", cs.Root.Name, cs.Spelling, c18Vectors[cs.Vector].Name, cs.Escaping, cs.Outside)
+	return fmt.Sprintf("root=%s entry=%s vector=%s escaping=%v outside-dir=%s -P=%v", cs.Root.Name, cs.Spelling, c18Vectors[cs.Vector].Name, cs.Escaping, cs.Outside, cs.SkipP)
 }
 
 func c18Run(c *core.Ctx, cs c18Case) {
@@ -217,6 +218,9 @@ func c18Run(c *core.Ctx, cs c18Case) {
 			args = append(args, "-r", root)
 		default:
 			args = append(args, "-r", cs.Root.Arg)
+		}
+		if cs.SkipP {
+			args = append(args, "-P")
 		}
 		args = append(args, "-f", "json", arg)
 		mon, merr := newC18Monitor()
@@ -317,7 +321,12 @@ func buildC18(tier string) *core.Plan {
 		for _, sp := range c18EntrySpellings {
 			for v := range c18Vectors {
 				// the outside directory is once unrelated and once a sibling whose name extends the root's name
-				cases = append(cases, c18Case{r, sp, v, true, "outside"}, c18Case{r, sp, v, true, "root-x"}, c18Case{r, sp, v, false, "outside"})
+				cases = append(cases, c18Case{r, sp, v, true, "outside", false}, c18Case{r, sp, v, true, "root-x", false}, c18Case{r, sp, v, false, "outside", false})
+				switch c18Vectors[v].Name {
+				case "file-symlink-relative", "file-symlink-chained", "dir-symlink-input-path", "input-path", "virtual-extension":
+					// these reach the decoy through the input path itself, so they also work with -P
+					cases = append(cases, c18Case{r, sp, v, true, "outside", true}, c18Case{r, sp, v, false, "outside", true})
+				}
 			}
 		}
 	}
@@ -389,8 +398,59 @@ func buildC18(tier string) *core.Plan {
 			c.Outcome("library-escape-refused")
 		}}
 
+	lib2 := core.Space{Name: "library-read-then-setroot", N: int64(len(c18DecoyStates)), Chunk: 1,
+		Desc: func(i int64) any { return "MergeFileLayers(outside/decoy) while unconfined; SetRoot(root); MergeFileLayers(root/in.yaml with $parent: ../outside/decoy); decoy is then " + c18DecoyStates[i].Name },
+		Run: func(c *core.Ctx, i int64) {
+			st := c18DecoyStates[i]
+			T := scratchDir()
+			defer os.RemoveAll(T)
+			root := filepath.Join(T, "root")
+			decoy := filepath.Join(T, "outside", "decoy.yaml")
+			c18Write(decoy, "d: A\n")
+			c18Write(filepath.Join(root, "in.yaml"), "e: 1\n$parent: ../outside/decoy\n")
+			c.Eval()
+			c.Trans(4)
+			p := newParser()
+			if err := p.MergeFileLayers(decoy); err != nil {
+				c.Fail("harness", "unconfined-read-fails", "library read-then-setroot", errStr(err))
+				return
+			}
+			if err := p.SetRoot(root); err != nil {
+				c.Fail("library-setroot", "setroot-fails", "library read-then-setroot", errStr(err))
+				return
+			}
+			// now the decoy changes (or disappears); nothing of it may be read or remembered
+			if st.Name == "absent" {
+				os.Remove(decoy)
+			} else {
+				os.WriteFile(decoy, []byte(st.Content), 0o644)
+			}
+			mon, merr := newC18Monitor()
+			if merr != nil {
+				return
+			}
+			defer mon.close()
+			if st.Name != "absent" {
+				mon.watch(decoy)
+			}
+			before := core.Canon(docData(p))
+			err := p.MergeFileLayers(filepath.Join(root, "in.yaml"))
+			opened := mon.events()
+			c.Validated()
+			c.Nontrivial()
+			if len(opened) > 0 {
+				c.Fail("no-read-outside-root", "outside-file-opened", "library read-then-setroot decoy="+st.Name, nil)
+				return
+			}
+			if err == nil {
+				c.Outcome("ESCAPE-SUCCEEDS")
+				c.Fail("refContain", "escape-succeeds", "library read-then-setroot decoy="+st.Name, map[string]any{"before": before, "after": docData(p)})
+				return
+			}
+			c.Outcome("library-escape-refused")
+		}}
 	return &core.Plan{
-		Spaces: []core.Space{cli, lib},
+		Spaces: []core.Space{cli, lib, lib2},
 		Rule: "product of 5 root spellings (., name from the parent, .. from a sub-directory, absolute, and / as a control) x 4 entry spellings x 12 escape vectors ($parent relative/from a sub-directory/absolute/wildcard, file symlink relative/absolute/chained, directory symlink via $parent and via the input path, symlink whose target name has a parent, input path with .., virtual extension) " +
 			"x {escaping to an unrelated directory, escaping to a sibling directory whose name extends the root name, non-escaping twin} x 4 states of the outside decoy (content A, content B, invalid, absent)",
 		Assumptions: []string{"an inotify watch (IN_OPEN|IN_ACCESS) on every decoy file outside the root observes opens and reads by the bkl process; stat and readlink do not raise these events and are not 'reading contents'",
